@@ -463,6 +463,37 @@ def qkind(n):
     return {'S': 'class', 'B': 'builtin', 'P': 'parameterized', 'V': 'typevar', 'N': 'bottom', 'C': 'generic'}.get(n[0], 'other')
 
 
+def shape(table, n):
+    """statement-level shape of a query type, part of the check name so that different kinds of failure stay apart:
+    use-site projections occurring in it, declared variance of its class, a parameter bounded by another parameter"""
+    fs = set()
+    for x in walk(n):
+        if x[0] == 'W':
+            fs.add('out' if x[1] == 1 else 'in')
+        elif x[0] == '*':
+            fs.add('star')
+    if n[0] == 'P':
+        try:
+            params = table.params(n[1])
+            names = {p[0] for p in params}
+            for p in params:
+                if p[1] == 1:
+                    fs.add('co')
+                elif p[1] == 2:
+                    fs.add('contra')
+                if p[2] is not None and mentions(p[2], names):
+                    fs.add('depbound')
+        except Undecided:
+            pass
+    return '+'.join(sorted(fs)) or 'plain'
+
+
+def rkind(n, nT):
+    if n[0] == 'P' and nT[0] == 'P' and n[1] == nT[1]:
+        return 'same-class'
+    return qkind(n)
+
+
 def check_subtypes(table, T, result, include_self, concrete_only):
     """-> (list of (check name, detail dict), undecided count)"""
     bad = []
@@ -497,8 +528,8 @@ def check_subtypes(table, T, result, include_self, concrete_only):
             und += 1
             continue
         if not ok:
-            bad.append(('subtypes:sound:%s' % qkind(nT), dict(returned=show(n), T=show(nT),
-                                                              expected='a subtype of T', actual='not a subtype')))
+            bad.append(('subtypes:sound:%s:%s:%s' % (qkind(nT), rkind(n, nT), shape(table, nT)),
+                        dict(returned=show(n), T=show(nT), expected='a subtype of T', actual='not a subtype')))
             continue
         be = list(table.bound_errors(n))
         if be and not list(table.bound_errors(nT)):
@@ -534,12 +565,15 @@ def check_irrelevant(table, T, r):
     except Undecided:
         return bad, 1
     d = dict(T=show(nT), returned=show(n), against=show(ref))
+    rk = 'top' if n == table.top else qkind(n)
     if n == ref:
         bad.append(('irrelevant:same-type:%s' % kind, dict(d, expected='a type unrelated to T', actual='T itself')))
     elif below:
-        bad.append(('irrelevant:subtype-returned:%s' % kind, dict(d, expected='not a subtype', actual='subtype')))
+        bad.append(('irrelevant:subtype-returned:%s:%s' % (kind, rk),
+                    dict(d, expected='not a subtype', actual='subtype')))
     elif above:
-        bad.append(('irrelevant:supertype-returned:%s' % kind, dict(d, expected='not a supertype', actual='supertype')))
+        bad.append(('irrelevant:supertype-returned:%s:%s' % (kind, rk),
+                    dict(d, expected='not a supertype', actual='supertype')))
     return bad, 0
 
 
@@ -1236,12 +1270,14 @@ def run(tier, seed, stop_first=False, workers=None):
     budget = float(os.environ.get('C09_BUDGET', '0')) or (48.0 if tier == 'quick' else 780.0)
     truncated = False
     try:
-        for r in it:
+        for _ in jobs:
+            try:
+                r = it.next(timeout=max(0.5, budget - (time.time() - t0)))
+            except multiprocessing.TimeoutError:
+                truncated = True        # wall-clock guard (loaded machine): the remaining tasks are not run
+                break
             results.append(r)
             if stop_first and r['violations']:
-                break
-            if time.time() - t0 > budget and len(results) < len(jobs):
-                truncated = True        # wall-clock guard (loaded machine): the remaining tasks are not run
                 break
     finally:
         if pool is not None:
@@ -1308,8 +1344,15 @@ def replay(fi):
     """re-execute a recorded failing input on the current tree: True if the property holds on it"""
     kind = fi['search']
     flags = dict(fi.get('flags') or {})
+    want = fi.get('check')
+    want = want[len('bounded['):-1] if want and want.startswith('bounded[') else None
+
+    def relevant(bad):
+        # the recorded check decides; other checks failing on the same input are reported under their own names
+        return [b for b in bad if want is None or b[0] == want]
     if fi.get('part') == 'C':
         names, bad = replay_pickled(fi)
+        bad = relevant(bad)
         for b in bad:
             print('%s: %s' % (b[0], b[1]))
         return not bad
@@ -1329,16 +1372,18 @@ def replay(fi):
     try:
         res = call_real(kind, T, types, flags, tab['factory'])
         bad, _ = judge(kind, table, T, res, flags)
+        bad = relevant(bad)
     except Exception as e:
         print('recorded path raises %s: %s' % (type(e).__name__, e))
         bad = []
     finally:
         M.chooser.record()
     if not bad:
-        acc = Acc(True)
+        acc = Acc(False)
         eval_query(acc, fi['part'], kind, table, fi['table'], fi['query_index'], T, types, flags, tab['factory'],
                    3000, 500, _pyrandom.Random(0))
-        bad = [(v['check'], v) for v in acc.violations.values()]
+        bad = relevant([(v['check'][len('bounded['):-1], {k: v[k] for k in ('returned', 'path') if k in v})
+                        for v in acc.violations.values()])
     for b in bad[:3]:
         print('%s %s on %s (table %s): %s' % (FUNC[kind], flags or '', show(norm(T)), fi['table'], b))
     return not bad
